@@ -60,6 +60,7 @@ class World:
         bad3 = PointCloud(self.targets[1][:-1])
         bad4 = PointCloud(np.hstack([self.targets[1], np.ones((len(src), 1))]))
         self.tobj[3], self.tobj[4] = bad3, bad4
+        self.tobj[5] = PointCloud(self.targets[1].reshape(len(src) // 2, -1).copy())      # same number of coordinates, other shape
 
     def source(self, cfg):
         from menpo.shape import PointCloud, TriMesh
@@ -86,6 +87,8 @@ class World:
                 self.als[ev["a"] - 1].set_target(self.tobj[ev["o"]])
             except ValueError:
                 err = "ValueError"
+            except Exception as e:       # the target was not refused up front and something deeper fell over
+                return "set_target raised %s instead of accepting or refusing the target with a ValueError" % type(e).__name__
         elif op == "edit":
             self.tobj[ev["o"]].points[...] = self.targets[ev["v"]]
         elif op == "pinv":
